@@ -273,6 +273,7 @@ pub struct Log {
     pub total_overhead_est: usize,
     pub expect_calls: u32,
     pub head_lens: Vec<usize>,
+    pub no_capture: bool,
 }
 
 #[derive(Debug, Clone, Serialize)]
@@ -309,6 +310,12 @@ pub struct Outcome {
     pub input_len: usize,
     pub max_queued: i64,
     pub send_log: Vec<(u64, usize, usize)>,
+    /// virtual ms the adversarial socket spent refusing writes / flushes
+    pub blocked_ms: u64,
+    pub write_calls: u32,
+    /// high-water mark of bytes allocated on this thread while the scenario ran (includes the
+    /// harness's own logs and output copy)
+    pub alloc_peak: isize,
 }
 
 impl Outcome {
@@ -516,6 +523,7 @@ impl MessageBody for EchoBody {
             }
             Poll::Ready(Some(Ok(b))) => {
                 let mut l = this.log.borrow_mut();
+                let l = &mut *l;
                 l.total_pulled += b.len();
                 let ahead = l.total_pulled as i64 - this.peer.out_len() as i64;
                 if ahead > l.max_pulled_ahead {
@@ -529,8 +537,8 @@ impl MessageBody for EchoBody {
                 let rq = &mut l.reqs[this.idx];
                 rq.body_len += b.len();
                 rq.chunks += 1;
-                if rq.body.len() < (1 << 22) {
-                    rq.body.extend_from_slice(&b);
+                if rq.body.len() < (1 << 22) && !l.no_capture {
+                    l.reqs[this.idx].body.extend_from_slice(&b);
                 }
                 drop(l);
                 this.peer.delivered(b.len());
@@ -752,11 +760,12 @@ async fn handle(
                             seen += b.len();
                             {
                                 let mut l = log.borrow_mut();
+                                let l = &mut *l;
                                 let r = &mut l.reqs[idx];
                                 r.body_len += b.len();
                                 r.chunks += 1;
-                                if r.body.len() < (1 << 22) {
-                                    r.body.extend_from_slice(&b);
+                                if r.body.len() < (1 << 22) && !l.no_capture {
+                                    l.reqs[idx].body.extend_from_slice(&b);
                                 }
                             }
                             peer.delivered(b.len());
@@ -824,6 +833,10 @@ pub struct Scenario {
     pub keep_taken_log: bool,
     /// request methods (HEAD or not) for closed-loop `WaitResps` steps of the peer
     pub is_head: Vec<bool>,
+    /// closed-loop adversarial write side
+    pub wsched: Option<simnet::WSched>,
+    /// keep the request-body bytes the handlers saw (off for volume tests)
+    pub capture_bodies: bool,
 }
 
 impl Scenario {
@@ -838,6 +851,8 @@ impl Scenario {
             head_lens: vec![],
             keep_taken_log: false,
             is_head: vec![],
+            wsched: None,
+            capture_bodies: true,
         }
     }
 }
@@ -855,7 +870,9 @@ pub fn run(sc: Scenario) -> Outcome {
     } else {
         None
     };
-    let out = local.block_on(&rt, run_inner(sc));
+    let mark = crate::alloc::mark();
+    let mut out = local.block_on(&rt, run_inner(sc));
+    out.alloc_peak = crate::alloc::peak_since(mark);
     drop(local);
     drop(rt);
     if let Some((input, pops, wops)) = debug_input {
@@ -890,11 +907,14 @@ async fn run_inner(sc: Scenario) -> Outcome {
         head_lens,
         keep_taken_log,
         is_head,
+        wsched,
+        capture_bodies,
     } = sc;
     let (io, peer) = simnet::pair();
     peer.0.borrow_mut().keep_taken_log = keep_taken_log;
     let log = Rc::new(RefCell::new(Log {
         head_lens,
+        no_capture: !capture_bodies,
         ..Default::default()
     }));
     let progs = Rc::new(progs);
@@ -975,6 +995,13 @@ async fn run_inner(sc: Scenario) -> Outcome {
     }
     w_ops.drain(..lead);
 
+    let mut aux_tasks = vec![];
+    if let Some(w) = &wsched {
+        simnet::apply_wsched(&peer, w);
+        aux_tasks.push(tokio::task::spawn_local(simnet::run_drip(peer.clone(), w.clone())));
+        aux_tasks.push(tokio::task::spawn_local(simnet::run_flush_unblocker(peer.clone())));
+    }
+
     let conn = svc.call((io, Protocol::Http1, None));
     let end_at = Rc::new(RefCell::new(None::<u64>));
     let ea = end_at.clone();
@@ -1017,6 +1044,9 @@ async fn run_inner(sc: Scenario) -> Outcome {
     };
     peer_task.abort();
     wtask.abort();
+    for t in aux_tasks {
+        t.abort();
+    }
     if let Some(t) = sig_task {
         t.abort();
     }
@@ -1053,6 +1083,9 @@ async fn run_inner(sc: Scenario) -> Outcome {
         input_len,
         max_queued: 0,
         send_log: s.send_log.clone(),
+        blocked_ms: s.blocked_ms_budget,
+        write_calls: s.write_calls,
+        alloc_peak: 0,
     }
 }
 
